@@ -90,7 +90,7 @@ class C05(Prop):
                    'compute_inverses=False is honoured only when the next step is a refresh step (documented requirement), otherwise forced True',
                    'tolerances as in DESIGN.md 2.2 (c=16 sqrt(n) eps kappa plus the factor rounding term); looser than 5e-2 counts as uninformative']
     examples = {'quick': 250, 'thorough': 600}
-    shards = {'quick': 4, 'thorough': 16}
+    shards = {'quick': 8, 'thorough': 16}
     shrink_budget_s = {'quick': 30.0, 'thorough': 180.0}
     required_labels = {'quick': ['nontrivial=True', 'stale_step=True', 'has_ckpt=True', 'has_sched=True', 'rolled_back=True', 'live_hp=True', 'bystander=True'],
                        'thorough': ['nontrivial=True', 'stale_step=True', 'has_ckpt=True', 'has_sched=True', 'method=inverse']}
